@@ -222,12 +222,11 @@ private:
 
                 if( this->_info._max_value == 1 )
                 {
-                    using channel_t = typename channel_type<typename get_pixel_type<View_Dst>::type>::type;
-
-                    // for pnm format 0 is white
+                    // for pnm format 0 is white. The row holds the file's own 8 bit samples, which the conversion
+                    // policy converts afterwards: its white is 255, whatever the channel type of the destination
                     row[x] = ( value != 0 )
-                             ? typename channel_traits< channel_t >::value_type( 0 )
-                             : channel_traits< channel_t >::max_value();
+                             ? byte_t( 0 )
+                             : byte_t( 255 );
                 }
                 else
                 {
@@ -269,7 +268,8 @@ private:
                ; ++x
                )
             {
-                it[x] = src[x];
+                // (the row holds 0 / 255)
+                it[x] = ( at_c<0>( src[x] ) != 0 ) ? 1 : 0;
             }
         }
         else
